@@ -557,4 +557,6 @@ func LinePair(x0 *big.Int, odd bool, m int64) (ref.Point, ref.Point) {
 }
 
 // ApplyStep carries out one representation step on e, whose current model value is cur (for stateful checks).
-func ApplyStep(e *secp256k1.Element, st Step, cur ref.Point) (*secp256k1.Element, error) { return apply(e, st, cur) }
+func ApplyStep(e *secp256k1.Element, st Step, cur ref.Point) (*secp256k1.Element, error) {
+	return apply(e, st, cur)
+}
